@@ -63,4 +63,13 @@ theorem stateMatch_toJson (st : St) (row : JObj) : stateMatch st.toJson row = (d
   have h := stateMatch_toJson_iff st row
   cases h1 : stateMatch st.toJson row <;> cases h2 : (decodeSt row == some st) <;> simp_all
 
+theorem jget_absent (row : JObj) (k : String) (h : ∀ kv ∈ row, kv.1 ≠ k) : jget row k = .null := by
+  unfold jget
+  have : row.find? (fun kv => kv.1 == k) = none := by
+    rw [List.find?_eq_none]
+    intro kv hkv
+    simpa using h kv hkv
+  rw [this]
+
+
 end Gallia.Replay
